@@ -57,19 +57,19 @@ def runOpAlgebra (op : String) : Option (RdM String) :=
   | "tr.pterr" => some do
       let t ← rdChain (α := α); let p ← rdV
       let a := Transform.ptWithError t.m p; let b := Transform.ptWithError t.inv p
-      return s!"{shV a.1} {shV a.2} {shV b.1} {shV b.2}"
+      return s!"{shV a.1} {shV a.2} {shV b.1} {shV b.2} {shT t}"
   | "tr.vecerr" => some do
       let t ← rdChain (α := α); let p ← rdV
       let a := Transform.vecWithError t.m p; let b := Transform.vecWithError t.inv p
-      return s!"{shV a.1} {shV a.2} {shV b.1} {shV b.2}"
+      return s!"{shV a.1} {shV a.2} {shV b.1} {shV b.2} {shT t}"
   | "tr.ptprop" => some do
       let t ← rdChain (α := α); let p ← rdV; let e ← rdV
       let a := Transform.ptPropagateError t.m p e; let b := Transform.ptPropagateError t.inv p e
-      return s!"{shV a.1} {shV a.2} {shV b.1} {shV b.2}"
+      return s!"{shV a.1} {shV a.2} {shV b.1} {shV b.2} {shT t}"
   | "tr.vecprop" => some do
       let t ← rdChain (α := α); let p ← rdV; let e ← rdV
       let a := Transform.vecPropagateError t.m p e; let b := Transform.vecPropagateError t.inv p e
-      return s!"{shV a.1} {shV a.2} {shV b.1} {shV b.2}"
+      return s!"{shV a.1} {shV a.2} {shV b.1} {shV b.2} {shT t}"
   | "tr.ray" => some do
       let t ← rdChain (α := α); let r ← rdRay
       let a := Transform.rayWith t.m r; let b := Transform.rayWith t.inv r
@@ -77,7 +77,11 @@ def runOpAlgebra (op : String) : Option (RdM String) :=
   | "tr.rayprop" => some do
       let t ← rdChain (α := α); let r ← rdRay; let oe ← rdV; let de ← rdV
       let a := Transform.rayPropagate t.m r oe de; let b := Transform.rayPropagate t.inv r oe de
-      return s!"{shRay a.1} {shV a.2.1} {shV a.2.2} {shRay b.1} {shV b.2.1} {shV b.2.2}"
+      return s!"{shRay a.1} {shV a.2.1} {shV a.2.2} {shRay b.1} {shV b.2.1} {shV b.2.2} {shT t}"
+  | "tr.rayerr" => some do
+      let t ← rdChain (α := α); let r ← rdRay
+      let a := Transform.rayWith t.m r; let b := Transform.rayWith t.inv r
+      return s!"{shRay a.1} {shV a.2.1} {shV a.2.2} {shRay b.1} {shV b.2.1} {shV b.2.2} {shT t}"
   -- BBox ------------------------------------------------------------------------
   | "bb.new" => some do let a ← rdV (α := α); let b ← rdV; return shBox (BBox.new a b)
   | "bb.unionpt" => some do let b ← rdBox (α := α); let p ← rdV; return shBox (b.fromUnionPoint p)
